@@ -55,6 +55,7 @@ def run(ctx):
     ctx.rule("shared/no-inplace-mutation", "no function mutates a class-level / module-level mutable object, a mutable default value or a cached result in place")
     ctx.rule("shared/cached-result-handed-out", "a memoised (lru_cache / cache) function's mutable result is process-lifetime state: no encode / decode / check entry point hands that object to its caller — every caller would receive, and could change, the one object all later calls return")
     ctx.rule("shared/table-handed-out", "no codec function returns a class-level / module-level mutable object itself or a view of it (e.g. a row of a precomputed numpy table)")
+    ctx.rule("self/observers-store-nothing", "__repr__ / __str__ / __len__ / __eq__ / __hash__ store no attribute on the object or on the objects it holds (a rendering with a side effect makes later results depend on whether it was called)")
     ctx.rule("self/no-memo-in-read-path", "no serialiser / checker / len / repr method both reads and writes one of its own attributes (a memo on the object that survives changes of the fields it was computed from)")
     ctx.rule("shared/one-shot-iterator", "no class-level / module-level value is a generator expression or another one-shot iterator (map / filter / zip / iter / reversed / enumerate object): the first use would consume it for the rest of the process")
     ctx.rule("time/no-salted-hash", "no codec function calls the builtin hash(): hashes of str / bytes / enum members are salted per interpreter, so a value derived from them differs between processes")
@@ -771,6 +772,19 @@ def self_rules(ctx, repo, eff):
         ctx.ob("self/no-toggle-in-read-path", f.qualname, not evs,
                "; ".join(f"line {e.line}: {e.how}" + (f" through {' <- '.join(x.split(':')[-1] for x in e.via)}" if e.via else "") for e in sorted(evs, key=repr)[:3]), f.loc)
     ctx.extra["read_path_methods"] = n
+    # pure observers — __repr__, __str__, __len__, __eq__, __hash__ — store nothing on the object or on what it holds: a rendering that
+    # attaches context to a sub-object changes what a later serialisation returns (the result depends on whether repr() was called)
+    OBSERVERS = ("__repr__", "__str__", "__len__", "__eq__", "__hash__")
+    n_obs = 0
+    for f in eff.funcs:
+        if not in_scope(f.qualname) or f.cls is None or f.name not in OBSERVERS:
+            continue
+        n_obs += 1
+        evs = [ev for ev in eff.events.values() if ev.fi is f and ev.origin == ("P", "self") and not ev.fuzzy and ev.how.startswith("attribute store")
+               and not any(v.split(":")[-1].split(".")[-1] in ("__init__",) for v in ev.via)]
+        ctx.ob("self/observers-store-nothing", f.qualname, not evs,
+               "; ".join(f"line {e.line}: {e.how}" + (f" through {' <- '.join(x.split(':')[-1] for x in e.via)}" if e.via else "") for e in sorted(evs, key=repr)[:3]) or "stores nothing", f.loc)
+    ctx.extra["observer_methods"] = n_obs
     # a read-path method that both reads and writes one of its own attributes keeps a memo on the object: the stored value
     # outlives the fields it was computed from (len / bytes of a re-used PDU object go stale)
     for f in eff.funcs:
@@ -935,7 +949,9 @@ def positive_controls(ctx):
     col = _Collect()
     self_rules(col, prepo, peff)
     one_shot_rules(col, prepo, peff)
-    for rule, key in (("self/no-memo-in-read-path", "LazyLength.__len__"), ("shared/one-shot-iterator", "LazyLength.ONE_SHOT"), ("time/no-salted-hash", "encode_salted")):
+    ctx.ob("engine/positive-controls", "probe.py Renders.__str__ (renders without storing: pure twin)", ("self/observers-store-nothing", "Renders.__str__") not in col.failed, "silent", "")
+    for rule, key in (("self/no-memo-in-read-path", "LazyLength.__len__"), ("shared/one-shot-iterator", "LazyLength.ONE_SHOT"), ("time/no-salted-hash", "encode_salted"),
+                      ("self/observers-store-nothing", "Renders.__repr__")):
         ctx.ob("engine/positive-controls", f"probe.py {key} ({rule})", (rule, key) in col.failed, "reported" if (rule, key) in col.failed else "the seeded violation was NOT reported", "")
     ctx.ob("engine/positive-controls", "probe.py LazyLength.as_bytes (reads, never writes: pure twin)", ("self/no-memo-in-read-path", "LazyLength.as_bytes") not in col.failed, "silent", "")
     co = ("S", next((f"cached result of {q}" for q in peff.cached if q.endswith("cached_bits")), "?"))
